@@ -2,6 +2,7 @@ import Lean.Data.Json
 import NGF.Model.Resolver
 import NGF.Model.ResolverSpec
 import NGF.Model.ResolverFaults
+import NGF.Model.ResolverHistory
 import NGF.Model.PipelineEndpoints
 import NGF.Model.PipelineRefsTie
 import NGF.Model.Proto
@@ -394,8 +395,86 @@ def judgeFaultsLine (fam : IPFamily) (plus : Bool) (ops : List FaultOp) (out : J
       let vh ← parseTable v "http"
       let vs ← parseTable v "stream"
       fails := fails ++ judgeHeld plus o.e.reload staleLoad ⟨http, stream⟩ vh vs
+    else if plus && !o.faults.replace && !o.faults.reload && !o.faults.get then
+      -- only per-upstream API errors: every OTHER upstream NGINX knows must hold this batch's endpoints
+      -- (theorem `api_failure_is_local`)
+      let vh ← parseTable v "http"
+      let vs ← parseTable v "stream"
+      fails := fails ++ (http.filter fun u => !o.faults.http.contains u.name && (vh.get u.name).isSome).flatMap fun u =>
+        (judgeServers u.eps (vh.servers u.name)).map fun c =>
+          if c = "empty_no_503" then "plus_empty_no_503" else "faults_plus_unaffected_http_" ++ c
+      fails := fails ++ (stream.filter fun u => !o.faults.stream.contains u.name && (vs.get u.name).isSome).flatMap fun u =>
+        (judgeStreamServers u.eps (vs.servers u.name)).map ("faults_plus_unaffected_" ++ ·)
   return verdict fails
 
+
+/-! ### hist: histories of watch events through the REAL ChangeProcessor + handler (OSS and Plus) -/
+
+def parseHSvc (j : Json) : Except String HSvc := do
+  return ⟨← reqStr j "ns", ← reqStr j "name", ← (← reqArr j "ports").mapM parseSvcPort⟩
+
+def parseHRoute (j : Json) : Except String HRoute := do
+  let refs ← (← reqArr j "refs").mapM fun r => do return (⟨← reqStr r "name", ← reqNat r "port"⟩ : HRef)
+  return ⟨← reqStr j "ns", ← reqStr j "name", refs⟩
+
+def parseEv (j : Json) : Except String Ev := do
+  let op ← reqStr j "op"
+  let kind ← reqStr j "kind"
+  if op = "upsert" && kind = "slice" then
+    let sj ← j.getObjVal? "slice"
+    return .upsertSlice (← reqStr sj "obj") (← parseSlice sj)
+  else if op = "delete" && kind = "slice" then return .deleteSlice (← reqStr j "ns") (← reqStr j "name")
+  else if op = "upsert" && kind = "svc" then return .upsertSvc (← parseHSvc (← j.getObjVal? "svc"))
+  else if op = "delete" && kind = "svc" then return .deleteSvc (← reqStr j "ns") (← reqStr j "name")
+  else if op = "upsert" && kind = "route" then return .upsertRoute (← parseHRoute (← j.getObjVal? "route"))
+  else if op = "delete" && kind = "route" then return .deleteRoute (← reqStr j "ns") (← reqStr j "name")
+  else throw "bad event"
+
+def parseBatches (inp : Json) : Except String (List (List Ev)) := do
+  (← reqArr inp "batches").mapM fun b => do (← b.getArr?).toList.mapM parseEv
+
+def changeName : Change → String
+  | .none => "none" | .endpoints => "endpoints" | .cluster => "cluster"
+
+def modelHist (plus : Bool) (bs : List (List Ev)) : Json :=
+  let tr := runHistory plus true (PState.init plus) bs
+  Json.mkObj [("changes", Json.arr (tr.map fun r => Json.str (changeName r.2)).toArray),
+              ("views", Json.arr (tr.map fun r => apiJson r.1.h.ngx.api).toArray),
+              ("confs", Json.arr (tr.map fun r => confJson ((r.1.h.latest).getD ⟨[], []⟩)).toArray)]
+
+/-- the clusters after each batch (bookkeeping of the input only) -/
+def clustersAfter : Cluster → List (List Ev) → List Cluster
+  | _, [] => []
+  | c, b :: bs => let c' := b.foldl Cluster.apply c; c' :: clustersAfter c' bs
+
+/-- The property after every drained batch: for every backendRef of a route whose Service and port exist, the servers NGINX
+holds for its upstream are the ready endpoints of that Service port in the CURRENT cluster — computed by `resolve`, which is
+the declarative set of the statement by `resolve_eq_spec` — or the 503 placeholder when there is none. -/
+def judgeHistLine (plus : Bool) (bs : List (List Ev)) (out : Json) : Except String String := do
+  let views ← reqArr out "views"
+  let panics ← reqArr out "panics"
+  if !panics.isEmpty then return "fail hist_panic"
+  if views.length ≠ bs.length then return "fail hist_missing_views"
+  let allowed := getAllowedAddressType .dual
+  let tag := if plus then "plus" else "oss"
+  let mut fails : List String := []
+  let mut judged := 0
+  for (c, v) in (clustersAfter ⟨[], [], []⟩ bs).zip views do
+    let vh ← parseTable v "http"
+    let slices := c.slices.map (·.2)
+    for r in c.routes do
+      for ref in r.refs do
+        match findSvcPort c.svcs r.ns ref.name ref.port with
+        | none => pure ()
+        | some sp =>
+          if admissible slices r.ns ref.name sp allowed then
+            judged := judged + 1
+            let eps := (resolve slices r.ns ref.name sp allowed).eps
+            let n := r.ns ++ "_" ++ ref.name ++ "_" ++ toString ref.port
+            fails := fails ++ (judgeServers eps (vh.servers n)).map fun f =>
+              if plus && f = "empty_no_503" then "plus_empty_no_503" else "hist_" ++ tag ++ "_http_" ++ f
+  if judged = 0 then return "skip no resolvable backendRef"
+  return verdict fails
 
 /-! ### pipeE: EndpointSlices inside the pipeline model — `PipelineEndpoints.httpUpstreams` against the REAL http.conf -/
 
@@ -602,6 +681,10 @@ def handle (mode : String) (line : String) : String :=
         let plus ← reqBool inp "plus"
         let ops ← (← reqArr inp "ops").mapM parseFaultOp
         if mode = "model" then return (modelFaults fam plus ops).compress else judgeFaultsLine fam plus ops out
+      else if k = "hist" then
+        let plus ← reqBool inp "plus"
+        let bs ← parseBatches inp
+        if mode = "model" then return (modelHist plus bs).compress else judgeHistLine plus bs out
       else if k = "pipeE" then
         let i ← parsePipeEIn inp
         if mode = "model" then return (modelPipeE i).compress else judgePipeELine i out
